@@ -8,7 +8,39 @@ import (
 // cache mutex is held; the mutex is never locked twice and is released on return.
 // (Interleavings are not enumerated: with one mutex and all accesses inside critical sections no two accesses race.)
 
-func init() { vregister("H_C12_locks", H_C12_locks) }
+func init() {
+	vregister("H_C12_locks", H_C12_locks)
+	vregister("H_C12_snapshot", H_C12_snapshot)
+}
+
+// One injection reflects one snapshot of the directories: the directory content changes between any two scans
+// (every Spec read is tagged with the scan generation); all devices injected by one call must carry one generation.
+func H_C12_snapshot() {
+	vResetWatchers()
+	vShortage = nondetChoice("no-watcher", 2) == 1 // without a watcher every query rescans
+	m := &vFS{root: "/vfs"}
+	d := &vDir{path: "/vfs/d0"}
+	f := &vFile{name: "a.json", state: vFileValid, vendor: "v0", devs: []string{"x", "y", "z"}}
+	d.files = []*vFile{f, {name: "b.yaml"}}
+	m.dirs = []*vDir{d}
+	vfs = m
+	vTagGen, vScanGen = true, 0
+	c := newCache(WithSpecDirs(d.path), WithAutoRefresh(true))
+	o := &oci.Spec{}
+	unresolved, err := c.InjectDevices(o, "v0/c=x", "v0/c=y", "v0/c=z")
+	vTagGen = false
+	vassert("snapshot-injection-succeeds", err == nil && len(unresolved) == 0)
+	if err != nil || o.Process == nil {
+		return
+	}
+	env := o.Process.Env
+	vreach("snapshot-injected")
+	vassert("snapshot-three-edits", len(env) == 3)
+	if len(env) == 3 {
+		// "GENx=<g>", "GENy=<g>", "GENz=<g>": one generation
+		vassert("injection-reflects-one-snapshot", env[0][5] == env[1][5] && env[1][5] == env[2][5])
+	}
+}
 
 func H_C12_locks() {
 	vResetWatchers()
